@@ -319,7 +319,24 @@ def one_history(ctx, kind, factory, route, rng):
         if dc:
             ctx.violation('mutation-visible-on-class', f'{kind}: {name} on an instance changed class-level state at {dc[:5]}', case)
             return
-    identity_sweep(ctx, a, b, case)
+    if not identity_sweep(ctx, a, b, case):
+        return
+    if route != 'sibling':
+        # a second copy of the same original, taken after both have moved on: it equals the original as it is *now*
+        # and shares nothing with the original or with the first copy
+        try:
+            c = {'copy': lambda: a.copy(), 'copy.copy': lambda: copy.copy(a), 'copy.deepcopy': lambda: copy.deepcopy(a)}[route]()
+        except Exception as e:
+            ctx.violation('copy-raises', f'second {route} of a {kind} raised {type(e).__name__}: {e} after {hist}', case)
+            return
+        ctx.count('second_copies_taken')
+        hist.append(['original', f'second-{route}', 'ok'])
+        d = snap.diff(snap.snapshot(a), snap.snapshot(c))
+        if d:
+            ctx.violation('copy-not-equal', f'a second {route} of the same {kind} is not observationally equal to the original as it is now, at {d[:5]}', case)
+            return
+        if not identity_sweep(ctx, a, c, case) or not identity_sweep(ctx, b, c, case):
+            return
     ctx.evaluation((kind, route, case['span'], hist), nontrivial=True, sample=case)
 
 
